@@ -24,6 +24,35 @@ def on_leaf_axis(inp):
     return False
 
 
+ROUNDING_ASSERT = "Assertion `std::fabs(x)-1.<10.*std::numeric_limits<FReal>::epsilon()' failed"
+
+
+def near_face_rounding(inp, real):
+    """known finding F-16 is a rounding-level excess: single precision, and some particle within a few tens of ulps (of the
+    coordinates' magnitude) of a face of its leaf.  Only then can the reference coordinate exceed 1 + 10 eps on a valid input."""
+    if real != "float":
+        return False
+    ncell = 1 << (inp["H"] - 1)
+    lw = inp["width"] / ncell
+    for p in list(inp["pts"]) + list(inp.get("tgts", [])):
+        for d in range(3):
+            corner = inp["center"][d] - inp["width"] / 2
+            tol = 64 * 2.0 ** -23 * max(abs(corner), abs(corner + inp["width"]), inp["width"])
+            u = (p[d] - corner) / lw
+            off = abs(u - round(u)) * lw
+            if off <= tol:
+                return True
+    return False
+
+
+def crash_sig(se, inp, real):
+    """crash signature; the reference-coordinate assertion outside the rounding regime of F-16 is a different failure"""
+    sig = corefam.crash_signature(se)
+    if ROUNDING_ASSERT in sig and not near_face_rounding(inp, real):
+        sig += ":no-particle-within-rounding-of-a-leaf-face"
+    return sig
+
+
 def run_family(rep, tier, seed, replay, proof_ok, proof_msg, cfgs, thresholds, tag, kernel_name):
     binaries, bad = num.build(cfgs)
     if bad:
@@ -62,8 +91,8 @@ def run_family(rep, tier, seed, replay, proof_ok, proof_msg, cfgs, thresholds, t
             cases = common.split_cases(so)
             name = "%s-%d" % (tag.lower(), k)
             if rc != 0 or name not in cases or cases[name][-1:] != ["end"]:
-                sig = "crash:" + corefam.crash_signature(se)
-                rep.violation(sig, "# " + se[:3000].replace("\n", "\n# ") + "\n" + text, True, "[%s %r] the real library aborted on case %s: %s" % (kernel_name, cfg, name, corefam.crash_signature(se)))
+                sig = "crash:" + crash_sig(se, inp, cfg[2])
+                rep.violation(sig, "# " + se[:3000].replace("\n", "\n# ") + "\n" + text, True, "[%s %r] the real library aborted on case %s: %s" % (kernel_name, cfg, name, sig[6:]))
                 continue
             runs = num.parse_runs(cases[name], cfg[2])
             if len(runs) != len(runs_spec) and len(inp["pts"]) > 0:
